@@ -17,6 +17,39 @@ EXPLANATION += (' (R18.10) TOON numbers: the language of the reader number scann
 NOT_DECIDED = ('table equality after a round trip; column/type inference; for TOON: the numeric value of a token both sides take as a number, '
                'indentation and array-header layout')
 
+def r18_13(chk, facts):
+    """A reused CSV parser still knows the column names it was configured with."""
+    chk.rule('R18.13', 'reuse keeps configured names: basic_csv_parser records how many column names came from the options (the member its '
+                       'constructor sets from column_names_.size()); reinitialize() removes only the names beyond that count - it never '
+                       'clears the container, because nothing re-reads the configured names and every table after the first would be '
+                       'decoded into empty objects', floor=1)
+    ctors = [f for f in facts.functions if f.get('fk') == 'CXXConstructor' and 'basic_csv_parser' in (f.get('cls') or '') and not f.get('dep') and f.get('body') is not None]
+    counters = set()
+    for f in ctors:
+        for x in A.walk_no_lambda(f['body']):
+            am = U.assigned_member(x) if x.get('k') in ('BinaryOperator', 'CXXOperatorCallExpr') else None
+            if am and any(A.is_call(y) and A.callee_name(y) == 'size' and 'column_names_' in A.text(y.get('obj')) for y in A.walk(am[1])): counters.add(am[0])
+        for ini in f.get('inits') or []:
+            if ini.get('m') and any(A.is_call(y) and A.callee_name(y) == 'size' and 'column_names_' in A.text(y.get('obj')) for y in A.walk(ini.get('init'))): counters.add(ini['m'])
+    chk.require(counters, 'R18.13: the member that counts the configured column names was not found in the basic_csv_parser constructors')
+    fns = U.one_per_inst([f for f in U.functions(facts, cls='basic_csv_parser', name='reinitialize') if f.get('body') is not None])
+    chk.require(fns, 'basic_csv_parser::reinitialize not found')
+    for fn in fns:
+        chk.analysed(fn)
+        site = U.site(fn, 'column_names_')
+        bad = None; ok = False
+        for b in I.closure_bodies(facts, fn, depth=2):
+            for y in A.walk_no_lambda(b):
+                if y.get('k') == 'CXXMemberCallExpr' and (A.strip(y.get('obj'), casts=True) or {}).get('n') == 'column_names_':
+                    nm = A.callee_name(y)
+                    if nm in ('clear', 'resize', 'assign', 'shrink_to_fit') and not any(c in A.text(a) for a in (y.get('args') or []) for c in counters): bad = (nm, y.get('l'))
+                    if nm == 'erase' and any(c in A.text((y.get('args') or [None])[0]) for c in counters): ok = True
+                    elif nm == 'erase': bad = ('erase', y.get('l'))
+                am = U.assigned_member(y) if y.get('k') in ('BinaryOperator', 'CXXOperatorCallExpr') else None
+                if am and am[0] == 'column_names_': bad = ('assignment', y.get('l'))
+        if bad: chk.fail('R18.13', site, fn['file'], bad[1], 'reinitialize() applies %s to column_names_ without regard to %s: the names given in the options are lost, and the next table is decoded without them' % (bad[0], sorted(counters)), None, fn['q'])
+        else: chk.ok('R18.13', site, {'counter': sorted(counters), 'erase_beyond_configured': ok})
+
 def run(chk, tier, only_rule=None):
     chk.explanation = EXPLANATION
     chk.not_decided = NOT_DECIDED
@@ -26,6 +59,13 @@ def run(chk, tier, only_rule=None):
     r18_7(chk, facts)
     r18_8(chk, facts)
     r18_11(chk, facts)
+    r18_13(chk, facts)
+    if only_rule is None:
+        # CSV text is read through text_source_adaptor: its byte-order-mark test must apply to the first chunk only (a U+FEFF that starts a
+        # later chunk is field content)
+        from . import c02
+        c02.r02_8(chk, F.load(['core'], tier))
+        if 'core' not in chk.units: chk.units.append('core')
     if only_rule in (None, 'R18.3', 'R18.4'):
         toon_rules(chk, tier)
     if only_rule in ('R18.3', 'R18.4'): return
